@@ -18,18 +18,23 @@ PROPERTY = 'C14'
 LEVEL = 'exploration'
 RULE = ('(a) every constraint expression tree of depth <= 3 (quick; one leaf-only operand per node at depth 3) / 4 '
         '(thorough) over SingleValue, ValueRange, ValueSize, PermittedAlphabet, ContainedSubtype, WithComponents '
-        '(ComponentPresent/Absent) combined by Intersection, Union (>= 1 operand) and unary Exclusion, in three '
+        '(ComponentPresent/Absent) combined by Intersection, Union and Exclusion (1 to 3 operands each), in three '
         'value domains (integers [-3,5]; strings over {a,b,c,d} of length <= 3; presence maps over 2 components), '
         'evaluated on EVERY candidate both as a bare constraint object and through a constrained type constructor; '
         '(b) every value-producing public operation of Integer and PrintableString/OctetString constrained by every '
         'depth <= 2 expression on every admitted operand x every second operand; (c) derivation chains of length <= 3 '
         'with/without an explicit tag: subset, isSuperTypeOf, assignment into SEQUENCE field and SEQUENCE OF; '
         '(d) SEQUENCE OF/SET OF under size constraints and SEQUENCE/SET under WITH COMPONENTS given to each encoder. '
+        '(e) BIT STRING under every depth <= 2 (thorough 3) expression over size constraints: construction of every bit string of '
+        'length <= 4 and every value-producing operation (slice, +, *, <<, >>, clone/subtype with str/tuple/object, nested '
+        'constructor, BER decode of primitive and chunked encodings) on every admitted operand, the operand validated '
+        'immediately before the operation; REAL under range / single-value expressions: construction of 7 candidates. '
         'Non-trivial = expression depth >= 2 or a boundary candidate; distinct = digest of (expression, candidate / '
         'operation).')
 ASSUMPTIONS = [
     'reference evaluator mc/model/constraints.py (set-theoretic denotation)',
-    'n-ary ConstraintsExclusion and zero-operand constraints are undocumented and not generated',
+    'ConstraintsExclusion(*constraints) with several operands excludes every operand (complement of their union), the '
+    'reading under which the documented sentence holds for each operand; zero-operand constraints are not generated',
     'operations whose failure is a Python-level arithmetic error (division by zero, negative shift) are excluded',
     'CPython 3.12, PYTHONHASHSEED=0',
 ]
@@ -71,10 +76,12 @@ def trees(leaves, maxdepth, linear_top=True):
         for a, b in pairs:
             out.append(('AND', a, b))
             out.append(('OR', a, b))
+            out.append(('NOT', a, b))
         if d == 2:
             for a, b, c in itertools.combinations(leaves[:5], 3):
                 out.append(('AND', a, b, c))
                 out.append(('OR', a, b, c))
+                out.append(('NOT', a, b, c))
         level[d] = out
     for d in range(1, maxdepth + 1):
         for t in level[d]:
@@ -525,6 +532,113 @@ def part_d(tier, i, n, seed, R, idx0):
     return idx
 
 
+# --------------------------------------------------------------------------- (e)
+
+BIT_LEAVES = [('SZ', 0, 1), ('SZ', 2, 3), ('SZ', 1, 1), ('SZ', 3, 3), ('SZ', 0, 0), ('CS', ('SZ', 1, 2))]
+BIT_CANDS = [''.join(t) for k in range(0, 5) for t in itertools.product('01', repeat=k)]
+REAL_LEAVES = [('VR', -1, 1), ('VR', 0.5, 2.5), ('SV', 0.5), ('SV', 0, 2)]
+REAL_CANDS = [-1.5, -1, 0, 0.5, 1, 2.5, 3]
+
+
+def bits_of(obj):
+    n = len(obj)
+    return format(obj.asInteger(), '0%db' % n) if n else ''
+
+
+def part_e(tier, i, n, seed, R, idx0):
+    """BIT STRING under size constraints (bit strings that are equal as integers differ in length) and REAL under
+    range / single-value constraints: construction and every value-producing operation"""
+    idx = idx0
+    for cd in trees(BIT_LEAVES, 2 if tier == 'quick' else 3):
+        idx += 1
+        if (idx + seed) % n != i:
+            continue
+        typ = univ.BitString().subtype(subtypeSpec=C.to_pyasn1(cd))
+        feats0 = {'e.bits'} | ops_in(cd)
+        for a in BIT_CANDS:
+            want = C.admits_raw(cd, a)
+            R.evaluations += 1
+            R.nontrivial((cd, 'bits', a))
+            got, leak = raises_constraint(lambda: typ.clone(a))
+            rec = {'part': 'e', 'dom': 'bits', 'expr': cd, 'value': a}
+            if leak is not None:
+                R.violation('e.type.leak:' + type(leak).__name__, rec, exc_text(leak), 'admit or ValueConstraintError',
+                            pyasn1_site(leak), feats0, idx)
+                continue
+            if got != want:
+                R.violation('e.type.denotation', rec, 'constructor %s %r under %s' % ('accepts' if got else 'rejects', a, C.show(cd)),
+                            'accepts' if want else 'rejects', 'type.base', feats0, idx)
+                continue
+            if not want:
+                continue
+            ops = []
+            for s, e in itertools.product(range(0, 4), repeat=2):
+                ops.append(('slice[%d:%d]' % (s, e), lambda va, s=s, e=e: va[s:e]))
+            for b in BIT_CANDS[:15]:
+                ops.append(('add:' + b, lambda va, b=b: va + b))
+                ops.append(('radd:' + b, lambda va, b=b: b + va))
+                ops.append(('clone:' + b, lambda va, b=b: va.clone(b)))
+                ops.append(('subtype:' + b, lambda va, b=b: va.subtype(b)))
+                ops.append(('clone_obj:' + b, lambda va, b=b: va.clone(univ.BitString(b))))
+                ops.append(('clone_tuple:' + b, lambda va, b=b: va.clone(tuple(int(c) for c in b))))
+                ops.append(('ctor_obj:' + b, lambda va, b=b: univ.BitString(univ.BitString(b), subtypeSpec=va.subtypeSpec)))
+                ops.append(('decode:' + b, lambda va, b=b: ber_dec.decode(ber_enc.encode(univ.BitString(b)), asn1Spec=va)[0]))
+                ops.append(('decode_chunked:' + b, lambda va, b=b: ber_dec.decode(
+                    ber_enc.encode(univ.BitString(b + '0' * 8), maxChunkSize=1, defMode=False), asn1Spec=va)[0]))
+            for k in (0, 1, 2, 3):
+                ops.append(('mul:%d' % k, lambda va, k=k: va * k))
+                ops.append(('rmul:%d' % k, lambda va, k=k: k * va))
+                ops.append(('lshift:%d' % k, lambda va, k=k: va << k))
+                ops.append(('rshift:%d' % k, lambda va, k=k: va >> k))
+            for name, fn in ops:
+                R.evaluations += 1
+                feats = feats0 | {'op:' + name.split(':')[0].split('[')[0]}
+                rec = {'part': 'e', 'dom': 'bits', 'expr': cd, 'op': name, 'a': a}
+                try:
+                    # the operand is validated immediately before the operation, as in user code
+                    r = fn(typ.clone(a))
+                except pyerr.PyAsn1Error:
+                    R.features['e.refused'] += 1
+                    continue
+                except Exception as ex:
+                    R.features['e.other_exception:' + type(ex).__name__] += 1
+                    continue
+                if isinstance(r, univ.BitString):
+                    rv = bits_of(r)
+                    R.nontrivial((cd, 'bits', name, a, rv))
+                    if not C.admits_raw(cd, rv):
+                        R.violation('e.bypass', rec, '%s on %r -> %r violating %s' % (name, a, rv, C.show(cd)),
+                                    'ValueConstraintError or an admitted value', 'type.univ', feats, idx)
+                    else:
+                        R.features['e.ok'] += 1
+    for cd in trees(REAL_LEAVES, 2):
+        idx += 1
+        if (idx + seed) % n != i:
+            continue
+        try:
+            typ = univ.Real().subtype(subtypeSpec=C.to_pyasn1(cd))
+        except Exception as ex:
+            R.violation('e.construct', {'part': 'e', 'dom': 'real', 'expr': cd}, exc_text(ex), 'type can be derived',
+                        pyasn1_site(ex), {'e.real'}, idx)
+            continue
+        for v in REAL_CANDS:
+            R.evaluations += 1
+            R.nontrivial((cd, 'real', v))
+            want = C.admits_raw(cd, v)
+            got, leak = raises_constraint(lambda: typ.clone(v))
+            feats = {'e.real'} | ops_in(cd)
+            rec = {'part': 'e', 'dom': 'real', 'expr': cd, 'value': v}
+            if leak is not None:
+                R.violation('e.real.leak:' + type(leak).__name__, rec, exc_text(leak), 'admit or ValueConstraintError',
+                            pyasn1_site(leak), feats, idx)
+            elif got != want:
+                R.violation('e.real.denotation', rec, 'constructor %s %r under %s' % ('accepts' if got else 'rejects', v, C.show(cd)),
+                            'accepts' if want else 'rejects', 'type.base', feats, idx)
+            else:
+                R.features['e.real.ok'] += 1
+    return idx
+
+
 def shard(tier, i, n, seed):
     R = Result()
     box = {'idx': 0}
@@ -540,6 +654,7 @@ def shard(tier, i, n, seed):
     run('b', lambda: part_b(tier, i, n, seed, R, box['idx']))
     run('c', lambda: part_c(tier, i, n, seed, R, box['idx']))
     run('d', lambda: part_d(tier, i, n, seed, R, box['idx']))
+    run('e', lambda: part_e(tier, i, n, seed, R, box['idx']))
     return R
 
 
